@@ -7,11 +7,11 @@ import (
 
 // clauses of the property (each compares an implementation program with a reference program)
 const (
-	clMount     = "mount-vs-group"          // P (mounts)                      vs P' (groups)
-	clMountLate = "late-mount-vs-group"     // P (mounted first, filled later) vs P' (groups)
-	clMapOrder  = "map-order"               // P under a deviating map order   vs P under the default order
-	clFlat      = "group-vs-fullpath"       // P' (groups)                     vs P'' (full paths)
-	clRoute     = "routechain-vs-fullpath"  // P''' (Route chains)             vs P'' (full paths)
+	clMount     = "mount-vs-group"         // P (mounts)                      vs P' (groups)
+	clMountLate = "late-mount-vs-group"    // P (mounted first, filled later) vs P' (groups)
+	clMapOrder  = "map-order"              // P under a deviating map order   vs P under the default order
+	clFlat      = "group-vs-fullpath"      // P' (groups)                     vs P'' (full paths)
+	clRoute     = "routechain-vs-fullpath" // P''' (Route chains)             vs P'' (full paths)
 )
 
 // pobs is a parsed observation "<trace>|<status>|<Allow>|<body>".
